@@ -27,6 +27,7 @@ type CEnv struct {
 	iter     *CEnv
 	bound    map[string]Term // quantifier-bound variables (visible inside old/pre/iter too)
 	side     *[]string       // range facts of the integer cells selected while evaluating (true of every real slice)
+	define   func(Term) Term // names a large closed term by a fresh constant (definitional fact); nil outside function contexts
 }
 
 func (w *World) newEnv(pkg *packages.Package) *CEnv {
@@ -35,7 +36,7 @@ func (w *World) newEnv(pkg *packages.Package) *CEnv {
 }
 
 func (e *CEnv) child() *CEnv {
-	c := &CEnv{w: e.w, pkg: e.pkg, vars: map[string]Term{}, old: e.old, depth: e.depth, nq: e.nq, lookup: e.lookup, pre: e.pre, iter: e.iter, globalOf: e.globalOf, bound: map[string]Term{}, side: e.side}
+	c := &CEnv{w: e.w, pkg: e.pkg, vars: map[string]Term{}, old: e.old, depth: e.depth, nq: e.nq, lookup: e.lookup, pre: e.pre, iter: e.iter, globalOf: e.globalOf, bound: map[string]Term{}, side: e.side, define: e.define}
 	for k, v := range e.bound {
 		c.bound[k] = v
 	}
@@ -142,6 +143,9 @@ func (e *CEnv) eval(x CExpr) Term {
 		v := e.eval(n.X)
 		if n.Op == "!" {
 			return mkBool(not(v.S))
+		}
+		if n.Op == "*" {
+			return e.autoDeref(v)
 		}
 		return mkMath("(- " + v.S + ")")
 	case *CBinary:
@@ -551,9 +555,14 @@ func (e *CEnv) call(n *CCall) Term {
 			a, b := e.autoDeref(e.eval(n.Args[0])), e.autoDeref(e.eval(n.Args[1]))
 			_, aa, ao, al, _ := e.reg().sliceParts(a)
 			_, ba, bo, bl, _ := e.reg().sliceParts(b)
+			// absolute-index form in both directions (a select on either array triggers the instance)
 			*e.nq++
 			q := fmt.Sprintf("q%d_i", *e.nq)
-			return mkBool("(and (= " + al + " " + bl + ") (forall ((" + q + " Int)) (=> (and (<= 0 " + q + ") (< " + q + " " + al + ")) (= (select " + aa + " (+ " + ao + " " + q + ")) (select " + ba + " (+ " + bo + " " + q + "))))))")
+			*e.nq++
+			q2 := fmt.Sprintf("q%d_i", *e.nq)
+			fa := "(forall ((" + q + " Int)) (! (=> (and (<= " + ao + " " + q + ") (< " + q + " (+ " + ao + " " + al + "))) (= (select " + aa + " " + q + ") (select " + ba + " (+ (- " + q + " " + ao + ") " + bo + ")))) :pattern ((select " + aa + " " + q + "))))"
+			fb := "(forall ((" + q2 + " Int)) (! (=> (and (<= " + bo + " " + q2 + ") (< " + q2 + " (+ " + bo + " " + bl + "))) (= (select " + ba + " " + q2 + ") (select " + aa + " (+ (- " + q2 + " " + bo + ") " + ao + ")))) :pattern ((select " + ba + " " + q2 + "))))"
+			return mkBool("(and (= " + al + " " + bl + ") " + fa + " " + fb + ")")
 		}
 	}
 	name := n.Fun
@@ -578,10 +587,11 @@ plain:
 		if e.depth > 40 {
 			cfail("macro recursion in %s", name)
 		}
-		c := &CEnv{w: e.w, pkg: m.Pkg, vars: map[string]Term{}, old: nil, depth: e.depth + 1, nq: e.nq, globalOf: e.globalOf, lookup: e.globalsOnly(), side: e.side}
+		c := &CEnv{w: e.w, pkg: m.Pkg, vars: map[string]Term{}, old: nil, depth: e.depth + 1, nq: e.nq, globalOf: e.globalOf, lookup: e.globalsOnly(), side: e.side, define: e.define, bound: e.bound}
 		if c.pkg == nil {
 			c.pkg = e.pkg
 		}
+		var lets [][2]string
 		for i, p := range m.Params {
 			a := args[i]
 			if bt, ok := a.T.(*types.Basic); ok && bt.Kind() == types.UntypedNil {
@@ -593,11 +603,49 @@ plain:
 					a = e.autoDeref(a)
 				}
 			}
+			// a large argument is bound by a let instead of being copied into every use (nested predicates over
+			// slices of slices otherwise grow exponentially)
+			if len(a.S) > 160 && e.define != nil && a.T != nil && a.T != tMath && !e.mentionsBound(a.S) {
+				a = e.define(a)
+			}
+			if len(a.S) > 160 {
+				*e.nq++
+				sym := fmt.Sprintf("mp%d_", *e.nq)
+				lets = append(lets, [2]string{sym, a.S})
+				a.S = sym
+			}
 			c.vars[p.Name] = a
+		}
+		nside := 0
+		if e.side != nil {
+			nside = len(*e.side)
 		}
 		r := c.eval(m.Body)
 		if m.Result != nil && m.Result != tBool && r.T == tMath {
 			r.T = m.Result
+		}
+		if len(lets) > 0 {
+			// side facts leave the scope of the let: substitute the argument back (they are single cells)
+			if e.side != nil {
+				for i := nside; i < len(*e.side); i++ {
+					for j := len(lets) - 1; j >= 0; j-- {
+						(*e.side)[i] = strings.ReplaceAll((*e.side)[i], lets[j][0], lets[j][1])
+					}
+				}
+			}
+			used := false
+			for _, l := range lets {
+				if strings.Contains(r.S, l[0]) {
+					used = true
+				}
+			}
+			if used {
+				var bs []string
+				for _, l := range lets {
+					bs = append(bs, "("+l[0]+" "+l[1]+")")
+				}
+				r.S = "(let (" + strings.Join(bs, " ") + ") " + r.S + ")"
+			}
 		}
 		return r
 	}
@@ -716,3 +764,15 @@ func (e *CEnv) noteCell(t Term) {
 	}
 	*e.side = append(*e.side, e.reg().rangeFact(t, 0))
 }
+
+// mentionsBound: the term refers to a quantifier-bound variable (and so cannot be named by a constant).
+func (e *CEnv) mentionsBound(s string) bool {
+	for _, v := range e.bound {
+		if strings.Contains(s, v.S) {
+			return true
+		}
+	}
+	return strings.Contains(s, "mp") && strings.Contains(s, "_") && letSym.MatchString(s)
+}
+
+var letSym = regexp.MustCompile(`\bmp[0-9]+_`)
